@@ -170,6 +170,7 @@ def main : IO Unit := do
       else if k = 2 then w.bufs[x]?.map fun b => if wh = 0 then b.front else b.rear
       else if k = 3 then w.oqs[x]?.map fun b => if wh = 0 then b.front else b.rear
       else if k = 4 then w.pqs[x]?.map fun b => if wh = 0 then b.front else b.rear
+      else if k = 5 then (if x = c then none else w.conds[x]?)      -- a condition observing another condition
       else none
     match g?, w.conds[c]? with
     | some g, some cg => w := { w with guards := w.guards.modify g fun gd => { gd with observers := cg :: gd.observers } }
